@@ -262,4 +262,52 @@ theorem resolve_never_out_of_fuel {g : Graph} (hwf : g.wellFormed = true) :
   · have := cloneableMoves_le g; simp; omega
   · simp
 
+
+theorem nodup_full {l : List Nat} {n : Nat} (hnd : l.Nodup) (hb : ∀ x ∈ l, x < n) (hlen : l.length = n) :
+    ∀ x, x < n → x ∈ l := by
+  intro x hx
+  apply Classical.byContradiction
+  intro hnot
+  have hnd' : (x :: l).Nodup := List.nodup_cons.mpr ⟨hnot, hnd⟩
+  have hb' : ∀ y ∈ x :: l, y < n := by
+    intro y hy
+    simp only [List.mem_cons] at hy
+    rcases hy with rfl | hy
+    · exact hx
+    · exact hb y hy
+  have := nodup_bound_length hnd' hb'
+  simp at this
+  omega
+
+/-- when the forward pass reports stalemates, it has reached a state of the ordering system from which nothing can be
+    scheduled although some node is left. -/
+theorem findStalemateLoop_some {g : Graph} :
+    ∀ (fuel : Nat) (placed : List Nat), isRunFrom g [] placed = true → (∀ x ∈ placed, x < g.size) →
+      g.size + 1 ≤ placed.length + fuel →
+      ∀ s ∈ findStalemateLoop g [] fuel placed,
+        ∃ final, isRunFrom g [] final = true ∧ (∀ x ∈ final, x < g.size) ∧
+          (∀ n, n < g.size → n ∈ final ∨ canPlace g final n = false) ∧ s.1 < g.size ∧ s.1 ∉ final := by
+  intro fuel
+  induction fuel with
+  | zero =>
+    intro placed hrun hb hlen
+    have hnd : placed.Nodup := by simpa using isRunFrom_nodup hrun (by simp)
+    have := nodup_bound_length hnd hb
+    omega
+  | succ f ih =>
+    intro placed hrun hb hlen s hs
+    have inv := sweep_inv hrun hb
+    have hnd : placed.Nodup := by simpa using isRunFrom_nodup hrun (by simp)
+    have B := sweep_B (ign := []) hnd hb
+    simp only [findStalemateLoop] at hs
+    by_cases hp : (sweep g [] placed).progressed = true
+    · simp only [hp, if_true] at hs
+      exact ih _ inv.run inv.bound (by have := B.prog hp; omega) s hs
+    · simp only [hp] at hs
+      have hp' : (sweep g [] placed).progressed = false := by simpa using hp
+      have hso := inv.staleOut s hs
+      refine ⟨placed, hrun, hb, fun n hn => inv.stuck hp' n (List.mem_range.mpr hn), ?_, ?_⟩
+      · exact List.mem_range.mp hso.1
+      · rw [← inv.same hp']; exact hso.2
+
 end Pxv.CG
